@@ -364,6 +364,13 @@ pub fn find_vertices(tracks: Vec<Track>) -> VertexingResult {
 pub mod verif {
     use super::*;
     pub use super::track_finding::{verif_cluster_spacepoints, verif_get_bins, verif_largest_cluster};
+    pub use super::track_fitting::{
+        verif_center_of_mass, verif_circle_through_three_points, verif_take_initial_simplex as verif_take_track_simplex,
+        verif_three_template_points, verif_track_cost,
+    };
+    pub use super::vertex_fitting::{
+        verif_beamline_clusters, verif_take_initial_simplex as verif_take_vertex_simplex, verif_vertex_cost,
+    };
 
     fn helix(p: [f64; 6]) -> Helix {
         Helix {
